@@ -615,13 +615,20 @@ pub fn gen_pipe_drop(rng: &mut Rng) -> Program {
             t0.push({ let __k = OpKind::Yield(g.rng.range(1, 3) as u8); g.op(__k) });
         }
     }
+    // sometimes the pipe's own strong reference is the only owner left when the output goes
+    let sole_owner = g.rng.permille(350);
+    if sole_owner {
+        t0.push({ let __k = OpKind::DropObj { o }; g.op(__k) });
+    }
     t0.push({ let __k = OpKind::DropOut { out }; g.op(__k) });
     let envg = if g.n_gates > 0 { g.env_gates(3) } else { vec![] };
     let mut prog = base_program(pool_max, 1);
     prog.n_streams = 1;
     prog.n_outs = 1;
     prog.prespawn = g.rng.permille(300);
-    prog.faults = Faults { spurious_cv_permille: 0, spurious_park_permille: 0, self_wake_permille: if g.rng.permille(300) { 300 } else { 0 }, dup_wake_permille: 0 };
+    // (a self-waking input would make the pipe release its temporary owner from inside the object's own job: with the
+    // harness's owner gone that could be the last one, a drop from inside the object's own operation, which is excluded)
+    prog.faults = Faults { spurious_cv_permille: 0, spurious_park_permille: 0, self_wake_permille: if !sole_owner && g.rng.permille(300) { 300 } else { 0 }, dup_wake_permille: 0 };
     prog.phases = vec![Phase { ctl: vec![], threads: vec![t0], env_gates: envg, env_streams: vec![] }];
     finish(prog, &g)
 }
